@@ -12,6 +12,15 @@ type Mutex struct {
 	real sync.Mutex
 	held bool
 	h    uint64
+	ep   uint64
+}
+
+// fresh resets model state left behind by an earlier execution (objects at package level
+// outlive executions; a torn-down thread may have died holding the lock).
+func (m *Mutex) fresh(e *Exec) {
+	if m.ep != e.id {
+		m.ep, m.held, m.h = e.id, false, 0
+	}
 }
 
 func (m *Mutex) Lock() {
@@ -20,6 +29,7 @@ func (m *Mutex) Lock() {
 		m.real.Lock()
 		return
 	}
+	m.fresh(e)
 	e.point(t, &op{desc: "mutex.lock", chosen: -2, objs: []*uint64{&m.h}, enabled: func() bool { return !m.held }, exec: func() { m.held = true }})
 }
 
@@ -29,6 +39,7 @@ func (m *Mutex) Unlock() {
 		m.real.Unlock()
 		return
 	}
+	m.fresh(e)
 	bad := false
 	e.point(t, &op{desc: "mutex.unlock", chosen: -2, objs: []*uint64{&m.h}, enabled: alwaysTrue, exec: func() {
 		if !m.held {
@@ -46,6 +57,7 @@ func (m *Mutex) TryLock() bool {
 	if t == nil {
 		return m.real.TryLock()
 	}
+	m.fresh(e)
 	got := false
 	e.point(t, &op{desc: "mutex.trylock", chosen: -2, objs: []*uint64{&m.h}, enabled: alwaysTrue, exec: func() {
 		if !m.held {
@@ -61,6 +73,13 @@ type RWMutex struct {
 	readers int
 	writer  bool
 	h       uint64
+	ep      uint64
+}
+
+func (m *RWMutex) fresh(e *Exec) {
+	if m.ep != e.id {
+		m.ep, m.readers, m.writer, m.h = e.id, 0, false, 0
+	}
 }
 
 func (m *RWMutex) Lock() {
@@ -69,6 +88,7 @@ func (m *RWMutex) Lock() {
 		m.real.Lock()
 		return
 	}
+	m.fresh(e)
 	e.point(t, &op{desc: "rwmutex.lock", chosen: -2, objs: []*uint64{&m.h}, enabled: func() bool { return !m.writer && m.readers == 0 }, exec: func() { m.writer = true }})
 }
 
@@ -78,6 +98,7 @@ func (m *RWMutex) Unlock() {
 		m.real.Unlock()
 		return
 	}
+	m.fresh(e)
 	bad := false
 	e.point(t, &op{desc: "rwmutex.unlock", chosen: -2, objs: []*uint64{&m.h}, enabled: alwaysTrue, exec: func() {
 		if !m.writer {
@@ -96,6 +117,7 @@ func (m *RWMutex) RLock() {
 		m.real.RLock()
 		return
 	}
+	m.fresh(e)
 	e.point(t, &op{desc: "rwmutex.rlock", chosen: -2, objs: []*uint64{&m.h}, enabled: func() bool { return !m.writer }, exec: func() { m.readers++ }})
 }
 
@@ -105,6 +127,7 @@ func (m *RWMutex) RUnlock() {
 		m.real.RUnlock()
 		return
 	}
+	m.fresh(e)
 	bad := false
 	e.point(t, &op{desc: "rwmutex.runlock", chosen: -2, objs: []*uint64{&m.h}, enabled: alwaysTrue, exec: func() {
 		if m.readers <= 0 {
@@ -130,6 +153,13 @@ type WaitGroup struct {
 	real sync.WaitGroup
 	n    int
 	h    uint64
+	ep   uint64
+}
+
+func (w *WaitGroup) fresh(e *Exec) {
+	if w.ep != e.id {
+		w.ep, w.n, w.h = e.id, 0, 0
+	}
 }
 
 func (w *WaitGroup) Add(d int) {
@@ -138,6 +168,7 @@ func (w *WaitGroup) Add(d int) {
 		w.real.Add(d)
 		return
 	}
+	w.fresh(e)
 	neg := false
 	e.point(t, &op{desc: "wg.add", chosen: -2, objs: []*uint64{&w.h}, enabled: alwaysTrue, exec: func() {
 		w.n += d
@@ -158,22 +189,38 @@ func (w *WaitGroup) Wait() {
 		w.real.Wait()
 		return
 	}
+	w.fresh(e)
 	e.point(t, &op{desc: "wg.wait", chosen: -2, objs: []*uint64{&w.h}, enabled: func() bool { return w.n == 0 }, exec: func() {}})
 }
 
 // Once replaces sync.Once: other callers block while the first runs f.
 type Once struct {
-	real  sync.Once
-	state int // 0 fresh, 1 running, 2 done
-	h     uint64
+	real    sync.Once
+	state   int // 0 fresh, 1 running, 2 done
+	h       uint64
+	ep      uint64
+	outside bool // completed outside any execution
+}
+
+func (o *Once) fresh(e *Exec) {
+	if o.ep != e.id {
+		o.ep, o.state, o.h = e.id, 0, 0
+		if o.outside {
+			o.state = 2
+		}
+	}
 }
 
 func (o *Once) Do(f func()) {
 	e, t := managed()
 	if t == nil {
-		o.real.Do(f)
+		o.real.Do(func() {
+			f()
+			o.outside = true
+		})
 		return
 	}
+	o.fresh(e)
 	run := false
 	e.point(t, &op{desc: "once.do", chosen: -2, objs: []*uint64{&o.h}, enabled: func() bool { return o.state != 1 }, exec: func() {
 		if o.state == 0 {
@@ -195,6 +242,13 @@ type Cond struct {
 	real    *sync.Cond
 	waiters []*thread
 	h       uint64
+	ep      uint64
+}
+
+func (c *Cond) fresh(e *Exec) {
+	if c.ep != e.id {
+		c.ep, c.waiters, c.h = e.id, nil, 0
+	}
 }
 
 func NewCond(l sync.Locker) *Cond { return &Cond{L: l, real: sync.NewCond(l)} }
@@ -205,6 +259,7 @@ func (c *Cond) Wait() {
 		c.real.Wait()
 		return
 	}
+	c.fresh(e)
 	// enqueue, then unlock (nobody can signal in between: the caller holds L), then block
 	e.mu.Lock()
 	t.condOK = false
@@ -221,6 +276,7 @@ func (c *Cond) Signal() {
 		c.real.Signal()
 		return
 	}
+	c.fresh(e)
 	e.simple(t, "cond.signal", func() {
 		if len(c.waiters) > 0 {
 			c.waiters[0].condOK = true
@@ -235,6 +291,7 @@ func (c *Cond) Broadcast() {
 		c.real.Broadcast()
 		return
 	}
+	c.fresh(e)
 	e.simple(t, "cond.broadcast", func() {
 		for _, w := range c.waiters {
 			w.condOK = true
